@@ -229,6 +229,14 @@ def sed_case(rng, n=None, carrier=None):
     lifespan = rng.choice([100.0, 3600.0, 1e6])
     age = np.array([rng.choice([0.0, lifespan - dt, lifespan, lifespan + 1]) for _ in range(n)])
     sink = np.array([rng.choice([0.0, 1e-3, 0.01, 0.1, 1e-7]) for _ in range(n)])
+    if n and mixk == 0:
+        for i in range(n):
+            if active[i] != 0 and sink[i] > 0 and rng.random() < 0.3:
+                cand = H[i] - dt * sink[i]
+                for c_ in (cand, np.nextafter(cand, 0.0), np.nextafter(cand, 1e9)):
+                    if c_ >= 0 and c_ + dt * sink[i] == H[i]:
+                        z[i] = c_
+                        break
     sdt = dt if rng.random() < 0.8 else rng.choice([dt, 2 * dt])
     return dict(kind="sedimentation", env=env, dt=dt, sdt=sdt, mixing=mixing, taucrit=taucrit, carrier=carrier,
                 active=active, x=x, y=y, z=z, age=age, sink=sink, lifespan=lifespan, ub=ub, vb=vb)
@@ -466,7 +474,26 @@ def lice_case(rng, n=None):
     ts = np.datetime64("2020-%02d-15T%02d:00:00" % (rng.choice([1, 3, 6, 9, 12]), hour))
     z = np.array([rng.choice([0.0, 1e-9, 0.5, 5.0, 19.0, 19.999, rng.uniform(0, 19.9)]) for _ in range(n)])
     age = np.array([rng.choice([0.0, 39.99, 40.0, 100.0, 169.99, 170.0, 171.0, rng.uniform(0, 180)]) for _ in range(n)])
-    return dict(kind="salmon_lice", env=env, dt=dt, sdt=dt, D=rng.choice([0.0, 1e-3, 1e-2]), ts=ts,
+    D = rng.choice([0.0, 1e-3, 1e-2])
+    if n and rng.random() < 0.25:
+        # exact-boundary case: no mixing, fresh water (every louse swims down with +5e-4 m/s) so that
+        # Z + W*dt lands exactly on the 20 m cap; ages that land exactly on 40 and 170 degree-days
+        D = 0.0
+        env = LinEnv(h0=500.0, t0=rng.choice([4.0, 8.0, 16.0]), tz=0.0, s0=5.0, sz=0.0)
+        step = 5e-4 * dt
+        for i in range(n):
+            for cand in (20.0 - step, np.nextafter(20.0 - step, 0.0), np.nextafter(20.0 - step, 30.0)):
+                if cand + 5e-4 * dt == 20.0:
+                    z[i] = cand
+                    break
+        inc = env.t0 * dt / 86400
+        for i in range(n):
+            target = rng.choice([40.0, 170.0])
+            for cand in (target - inc, np.nextafter(target - inc, 0.0), np.nextafter(target - inc, 1e3)):
+                if cand + inc == target:
+                    age[i] = cand
+                    break
+    return dict(kind="salmon_lice", env=env, dt=dt, sdt=dt, D=D, ts=ts,
                 x=np.full(n, 5.0), y=np.full(n, 5.0), z=z, age=age,
                 days=np.array([rng.uniform(0, 20) for _ in range(n)]),
                 super=np.array([rng.choice([1.0, 100.0, 0.5]) for _ in range(n)]))
